@@ -207,8 +207,8 @@ Proof.
     eapply rsim_bind; [apply IHE; exact HS|]. intros itv s1 itv' s1' Hitv H1. cbv beta match. rsubst.
     rewrite (iter_items_sim _ _ _ _ H1). apply rsim_pure. intros items Hit.
     assert (Hh : forall (v : value) (l : list value),
-              match rn v with VRange a b c => if (c =? 0)%Z then 0%Z else Z.quot (b - a) c | _ => Z.of_nat (length (map rn l)) end =
-              match v with VRange a b c => if (c =? 0)%Z then 0%Z else Z.quot (b - a) c | _ => Z.of_nat (length l) end).
+              match rn v with VRange a b c => range_len a b c | _ => Z.of_nat (length (map rn l)) end =
+              match v with VRange a b c => range_len a b c | _ => Z.of_nat (length l) end).
     { intros v l. rewrite map_length. destruct v; reflexivity. }
     rewrite !Hh. clear Hh.
     match goal with |- rsim _ (if ?c then _ else _) (if ?c then _ else _) => destruct c end; [reflexivity|].
